@@ -397,6 +397,47 @@ def check_ast_roundtrip(prop, tier, repo, verif):
     return res
 
 
+def check_ast_shapes(prop, tier, repo, verif):
+    t0 = time.time()
+    res = {'unit': 'bounded:ast_shapes', 'engine': 'bounded run of the real parser / AST + library serialisers / assembler (tools/astshapes, adapted from the second C10 sub-agent\'s demo; release build)', 'status': 'ok',
+           'failures': [], 'undecided': [], 'bounded': True,
+           'bound': '12658 sources: every chain of if / if-else / while / repeat to depth 3 with 0-3 instructions before and after on every level (as program, export and proc bodies), sibling blocks, repeat counts up to 2^32-1, locals 0..65535, docs of 0..65535 bytes on modules / procedures / re-exports, 0..65535 procedures, imports and re-exports with aliases and long paths, every decorator form inside each block kind, 252 MaslLibrary instances, Kernel / ProgramInfo / StackInputs / StackOutputs; each serialised with and without imports, decoded, all bytes consumed, equal, byte fix-point, locations written and reloaded (strict, node by node), recompiled with and without debug mode to the same MAST root'}
+    binp, err = build_tool(repo, verif, 'astshapes', release=True)
+    if binp is None:
+        res['status'] = 'undecided'
+        res['undecided'].append('astshapes does not build against the current tree: ' + err)
+        return res
+    p = subprocess.run([binp], stdout=subprocess.PIPE, stderr=subprocess.PIPE, text=True)
+    m = re.search(r'SUMMARY cases=(\d+) checks=(\d+) failures=(\d+)', p.stdout)
+    if not m:
+        res['status'] = 'undecided'
+        res['undecided'].append('astshapes gave no summary (panic?): ' + (p.stdout + p.stderr)[-500:])
+        return res
+    seen = set()
+    for ln in p.stdout.split('\n'):
+        mm = re.match(r'FAILCASE (\S+) :: (.*?) :: (.*)', ln)
+        if not mm:
+            continue
+        family, desc, detail = mm.groups()
+        if family == 'nested-locations-not-restored':
+            key = 'nested-locations:'
+        else:
+            key = '%s:%s' % (family, re.sub(r'[^A-Za-z0-9.]+', '-', desc).strip('-')[:70])
+        if key in seen or len(seen) > 40:
+            continue
+        seen.add(key)
+        res['failures'].append({'obligation': '%s/bounded/ast_shapes#%s' % (prop, key), 'message': 'serialisation round trip of [%s] %s: %s' % (family, desc[:200], detail[:300]),
+                                'rendered': ln[:1800], 'origins': ['assembly/src/ast/nodes/serde', 'assembly/src/ast/mod.rs', 'assembly/src/ast/code_body.rs', 'assembly/src/ast/imports.rs', 'assembly/src/library/masl.rs', 'core/src'],
+                                'failing_input': {'family': family, 'case': desc[:400], 'detail': detail[:900], 'cmd': '.cache/target/release/astshapes'}})
+    if int(m.group(3)) and not [f for f in res['failures'] if 'nested-locations' not in f['obligation']]:
+        res['failures'].append({'obligation': '%s/bounded/ast_shapes#failures' % prop, 'message': '%s failures' % m.group(3), 'rendered': p.stdout[-800:], 'origins': []})
+    if res['failures']:
+        res['status'] = 'fail'
+    res['wall_s'] = round(time.time() - t0, 1)
+    res['checker_cmd'] = 'tools/astshapes (built against the current tree): %s sources, %s checks' % (m.group(1), m.group(2))
+    return res
+
+
 def check_hash_invariance(prop, tier, repo, verif):
     t0 = time.time()
     res = {'unit': 'bounded:hash_invariance', 'engine': 'bounded run of the real assembler and processor (tools/hashprobe)', 'status': 'ok',
